@@ -288,10 +288,12 @@ def restore_comprehension_names(tree: ast.Module, relpath: str):
         want = ref.get(q)
         if not want:
             continue
-        by_key = {}
+        seen_keys = {}
         for k, names in want.items():
             if k.startswith("comp "):
-                by_key.setdefault(k.rsplit(" @", 1)[0], names)
+                seen_keys.setdefault(k.rsplit(" @", 1)[0], set()).add(tuple(names))
+        # only when the reference is unanimous: two comprehensions over the same iterable may well use different names
+        by_key = {k: list(next(iter(v))) for k, v in seen_keys.items() if len(v) == 1}
         if not by_key:
             continue
         for comp in ast.walk(fn):
@@ -311,6 +313,33 @@ def restore_comprehension_names(tree: ast.Module, relpath: str):
                                 x.id = n_
                         inside.discard(c_)
                         inside.add(n_)
+
+
+def split_foreign_tuple_assignments(tree: ast.Module, relpath: str):
+    """`a, b = (e1, e2)` with independent sides that the reference does not spell that way (a by-product of inlining / joining) is
+    analysed as two assignments: the dataflow analyses follow plain assignments."""
+    from . import canon_rw as rw
+    sh = rw.shapes().get(relpath)
+    if not sh:
+        return
+    for q, fn in _functions(tree):
+        ref = sh["functions"].get(q)
+        if ref is None:
+            continue
+        names = rw.local_names(fn)
+        ref_texts = {fp.split(":", 1)[1] for fp in ref}
+        for owner, field, stmts in rw.blocks(fn):
+            i = 0
+            while i < len(stmts):
+                st = stmts[i]
+                if isinstance(st, ast.Assign) and len(st.targets) == 1 and isinstance(st.targets[0], ast.Tuple) and isinstance(st.value, ast.Tuple) \
+                        and len(st.targets[0].elts) == len(st.value.elts) and all(isinstance(t, ast.Name) for t in st.targets[0].elts) \
+                        and not any(rw.mentions(v, t.id) for v in st.value.elts for t in st.targets[0].elts) and rw._u(st, names) not in ref_texts:
+                    parts = [ast.copy_location(ast.Assign(targets=[t], value=v), st) for t, v in zip(st.targets[0].elts, st.value.elts)]
+                    stmts[i:i + 1] = parts
+                    i += len(parts)
+                    continue
+                i += 1
 
 
 def inline_fresh_temporaries(tree: ast.Module, relpath: str):
@@ -507,6 +536,7 @@ def canonicalise(tree: ast.Module, relpath: str, src: Optional[str] = None) -> a
         restore_local_names(tree, relpath)
         restore_comprehension_names(tree, relpath)
         inline_fresh_temporaries(tree, relpath)
+        split_foreign_tuple_assignments(tree, relpath)
         if ast.dump(tree) == before:
             break
     ast.fix_missing_locations(tree)
